@@ -1,5 +1,5 @@
 # replay of a bounded stand-in violation (C16): re-run native/c16_states.py
 import sys
-print('n=2 pure=True cat: quad_expectation(1,0.0) = [0.62239, 0.63981] on bosonic, [0.62239, 2.27449] on fock')
+print('fock pure=True: run(prog, modes=[1, 2]).state: index i of the returned state is not the i-th requested mode (quadratures [0.134, 0.158, 0.134, 0.158] vs [-0.023, -0.037, -0.023, -0.037] from the full state)')
 print('REPLAY-VIOLATION')
 sys.exit(1)
